@@ -52,5 +52,46 @@ func TestVerifReplayJSONBody(t *testing.T) {
 			t.Errorf("REPLAY-FAIL func=json.(*body).Content input=%q PartialContent(name) then Content(other) on the remainder: errors=%v, one step: %v", src, d2.HasErrors(), d1.HasErrors())
 		}
 	}
+	// repeated block type names: every occurrence becomes a block, in source order
+	blockSchema := &hcl.BodySchema{Blocks: []hcl.BlockHeaderSchema{{Type: "service", LabelNames: []string{"n"}}, {Type: "other"}}}
+	type bcase struct {
+		src  string
+		want string
+	}
+	for _, c := range []bcase{
+		{`{"service": {"a": {}}}`, "service.a"},
+		{`[{"service": {"a": {}}}, {"service": {"b": {}}}]`, "service.a service.b"},
+		{`[{"service": {"a": {}}}, {"other": {}}, {"service": {"b": {}}}]`, "service.a other service.b"},
+		{`{"service": {"a": {}}, "other": {}, "service": {"b": {}}}`, "service.a other service.b"},
+		{`{"service": [{"a": {}}, {"b": {}}], "other": [{}, {}]}`, "service.a service.b other other"},
+	} {
+		f, diags := Parse([]byte(c.src), "t.json")
+		if diags.HasErrors() {
+			continue
+		}
+		n++
+		got := func(blocks hcl.Blocks) string {
+			out := ""
+			for i, b := range blocks {
+				if i > 0 {
+					out += " "
+				}
+				out += b.Type
+				for _, l := range b.Labels {
+					out += "." + l
+				}
+			}
+			return out
+		}
+		c1, d1 := f.Body.Content(blockSchema)
+		if d1.HasErrors() || got(c1.Blocks) != c.want {
+			t.Errorf("REPLAY-FAIL func=json.(*body).PartialContent input=%q Content returns blocks [%s] (errors=%v), written are [%s]", c.src, got(c1.Blocks), d1.HasErrors(), c.want)
+		}
+		c2, rem, d2 := f.Body.PartialContent(blockSchema)
+		_, d3 := rem.Content(&hcl.BodySchema{})
+		if d2.HasErrors() || d3.HasErrors() || got(c2.Blocks) != c.want {
+			t.Errorf("REPLAY-FAIL func=json.(*body).PartialContent input=%q PartialContent returns blocks [%s] (errors=%v, remainder errors=%v), written are [%s]", c.src, got(c2.Blocks), d2.HasErrors(), d3.HasErrors(), c.want)
+		}
+	}
 	fmt.Printf("STANDIN inputs=%d bound=\"%d JSON bodies in object and array-of-objects form, one-step vs two-step processing\"\n", n, n)
 }
